@@ -1,8 +1,8 @@
 """C14 — fluent node names identify computations; operations leave operands intact.
 
 Tie: for random fluent programs every node of every resulting graph is re-named by the model
-(Model/Names.lean renders `fname + repr(args) + repr(kwargs) + repr([input names])`, Python applies
-sha256) bottom-up and compared with the real `Node.name`; `from_source` labels likewise.
+(Model/Names.lean renders `fname + repr(args) + repr(kwargs) + repr([input names])` + `|outputs=n` unless n = 1,
+Python applies sha256) bottom-up and compared with the real `Node.name`; `from_source` labels likewise.
 The statements whose code path writes to `Action.nodes` in place or hands back an existing object —
 `transform` with a func that hands back an existing action (or the receiver), stack/concatenate on a
 dimension of size 1, select/iselect without criteria — are replayed on the heap model (`Names.transformH`,
@@ -36,8 +36,8 @@ LEVEL_TEXT = ("Lean theorems over Model/Names.lean. Names: a node name is a func
               "(callable, statics, inputs) — the rendering of the input-name list is proved injective, not assumed, so the same inputs in a "
               "different order give a different name; by induction over the depth of the graph (source nodes and '<parent>.<output>' input "
               "names included, which are proved never to collide with node names) equal names imply the same computation all the way "
-              "down. What the name does not cover is refuted by witnesses: callables of equal __name__, the number of outputs, statics "
-              "with a lossy repr. Unions: de-duplication keeps every computation exactly once and is idempotent over two builds; where "
+              "down; the number of outputs is part of the name. What the name does not cover is refuted by witnesses: callables of "
+              "equal __name__, statics with a lossy repr. Unions: de-duplication keeps every computation exactly once and is idempotent over two builds; where "
               "names identify computations the names of the union are pairwise different and lowering by name finds the computation. "
               "Existing actions: Action.transform, stack/concatenate and select are modelled on a heap of action objects with their in-place "
               "writes (_add_dimension, _squeeze_dimension) and their hand-backs of existing objects; for every func (new action, the "
@@ -302,7 +302,7 @@ def node_record(n):
             inputs.append([x.parent.name, x.name])
     fname = getattr(func, "__name__", "")
     return {"fname": fname, "args": [_pyval(a) for a in args], "kwargs": [[k, _pyval(v)] for k, v in kwargs.items()],
-            "inputs": inputs, "label": n._for_copy[3] if n._for_copy[3] is not None else fname}
+            "inputs": inputs, "outputs": len(n.outputs), "label": n._for_copy[3] if n._for_copy[3] is not None else fname}
 
 
 def source_items(action):
@@ -799,7 +799,7 @@ def model_names(progs, envs, heaps=None):
         for n, rec, rend, ins in zip(nodes, recs, m["renders"], m["inputs"]):
             want = rec["label"] + ":" + hashlib.sha256(rend.encode()).hexdigest()
             if want != n.name:
-                bad.append((prog, "node-name", {"node": {k: rec[k] for k in ("fname", "args", "kwargs", "inputs", "label")}},
+                bad.append((prog, "node-name", {"node": {k: rec[k] for k in ("fname", "args", "kwargs", "inputs", "outputs", "label")}},
                             {"render": rend, "name": want}, {"name": n.name}))
                 break
         for s_, labels in zip(srcs, m["labels"]):
@@ -949,7 +949,7 @@ def correspond(ctx):
         try:
             # deduplicate_nodes is quadratic: the witnesses take all three kinds of union, the others one each in turn
             vias = ("from_actions", "add", "iadd") if pi < nw else (("from_actions", "add", "iadd")[pi % 3],)
-            env, viol = oracle_program(p, hops, probe_default=pi < 2, vias=vias)
+            env, viol = oracle_program(p, hops, probe_default=pi < nw, vias=vias)
         except Exception as e:   # the oracle itself must not crash the check
             ctx.notes.append(f"oracle error {type(e).__name__}: {str(e)[:100]}")
             env, viol, hops = F.run_real(p), [], []
